@@ -19,7 +19,13 @@ ASSUMPTIONS = ["Python list is the reference sequence",
 
 
 def prepare(tier):
-    return {"ex_vm": build.executor("asan", "ex_vm")}
+    return {"ex_vm": build.executor("asan", "ex_vm"), "fz_seq": build.executor("fuzz", "fz_seq", extra_ldflags=["-fsanitize=fuzzer"])}
+
+
+# coverage-guided companion (libFuzzer, ASan): Array<Int> and List<Int> in lock step against a plain C array, every
+# op followed by len / get (both index forms) / mem / forward and backward iteration and a generated Slice view
+# (harness/fz_seq.c)
+FUZZ = [{"target": "fz_seq", "runs": {"quick": 6000, "thorough": 2000000}, "max_len": 200}]
 
 
 def strategy(tier):
